@@ -14,6 +14,7 @@ UNITS = ['Persist']
 PROOFS = ['theories/Persist/Proofs.v']
 HEADER = 'From PW Require Import Persist.Model Persist.Run.\nOpen Scope Z_scope.\n'
 HMOD = 1000000007
+FATAL = 666     # an input on which the target raises: the worker then dies on its own
 
 
 def hash_elem(h, payload, muts):
@@ -26,6 +27,8 @@ def target(*args, **kwargs):
     defaults were not pristine)."""
     h = 17
     for a in args:
+        if a[0] == FATAL:
+            raise ValueError('fatal input')
         h = hash_elem(h, a[0], a[1])
     h = (h * 5 + 3) % HMOD
     for k, v in kwargs.items():
@@ -171,6 +174,94 @@ def gen_child_cases(rnd, n):
             es.append((ea, ek))
         cases.append(dict(d=d, tuple=rnd.random() < 0.5, dk=dk, es=es, kind='random'))
     return cases
+
+
+# ---------------------------------------------------------------- enqueue after the worker died on its own
+def gone(pid):
+    try:
+        with open(f'/proc/{pid}/stat') as f:
+            return f.read().rsplit(')', 1)[1].split()[0] == 'Z'
+    except OSError:
+        return True
+
+
+def wait_dead_without_asking(w, timeout):
+    """waits until the worker is dead WITHOUT using any call of the worker's own API (is_alive, wait, result, next_result ...
+    all refresh what the parent object knows): the thread object behind it has ended and/or its process is gone or a zombie."""
+    import threading
+    import time
+    t0 = time.monotonic()
+    ch = getattr(w, '_child', None)
+    if isinstance(ch, threading.Thread):
+        ch.join(timeout)
+        if ch.is_alive():
+            return False
+    pid = getattr(w, '_pid', None)
+    if pid and pid != os.getpid():
+        while not gone(pid):
+            if time.monotonic() - t0 > timeout:
+                return False
+            time.sleep(0.02)
+    time.sleep(0.3)
+    return True
+
+
+def _self_death(kind, host, pre, read_before, holder, ob):
+    from pyworkers.persistent import WorkerClosedError
+    w = make_worker(kind, [], False, [], host)
+    holder.append(w)
+    try:
+        for i in range(pre):
+            w.enqueue(box(i + 1))
+        if read_before:
+            ob['values'] = [w.next_result(timeout=20) for _ in range(pre)]
+        w.enqueue(box(FATAL))
+        ob['died'] = wait_dead_without_asking(w, 20)
+        for x in (10, 11):
+            try:
+                w.enqueue(box(x)); ob['late'].append('accepted')
+            except WorkerClosedError:
+                ob['late'].append('WorkerClosedError')
+            except Exception as e:       # noqa
+                ob['late'].append(type(e).__name__)
+        ob['waited'] = w.wait(20)
+        for _ in range(pre + 4):
+            try:
+                ob['values'].append(w.next_result(block=False))
+            except queue.Empty:
+                break
+        ob['has_error'] = w.has_error
+        ob['error'] = type(w.error).__name__ if w.has_error else None
+    finally:
+        try:
+            w.terminate(timeout=1)
+        except Exception:
+            pass
+    return ob
+
+
+def self_death_probe(kind, host, pre, read_before):
+    holder = []
+    ob = dict(values=[], late=[], died=None, waited=None, has_error=None, error=None)
+    done, _ = core.with_deadline(_self_death, BLOCK_S, kind, host, pre, read_before, holder, ob)
+    if not done:
+        force_stop(holder)
+        ob['blocked'] = True
+    return ob
+
+
+def oracle_self_death(pre, ob):
+    exp = expected_values(dict(d=[], dk=[], es=[([i + 1], []) for i in range(pre)]))
+    if ob.get('blocked'):
+        return f'an operation of the history did not return within {BLOCK_S} s'
+    if not ob['died']:
+        return 'the worker whose target raised did not end by itself within 20 s'
+    if ob['late'] != ['WorkerClosedError'] * 2:
+        return (f'enqueue on a worker that had died on its own (its target raised; nobody asked the worker about its state in between): '
+                f'{ob["late"]} instead of WorkerClosedError twice')
+    if not ob['waited'] or ob['values'] != exp or not ob['has_error'] or ob['error'] != 'ValueError':
+        return f'after the death: wait()={ob["waited"]}, values {ob["values"]} (expected {exp}), has_error={ob["has_error"]} error={ob["error"]}'
+    return None
 
 
 # ---------------------------------------------------------------- parent histories
@@ -328,6 +419,13 @@ def main(tier, seed, replay=None):
                     res.violation(dict(kind=kind, d=c['d'], tuple=c['tuple'], dk=c['dk'], es=c['es']), why, observed=ob)
                 if not ob.get('blocked'):
                     terms.append(child_term(kind, c, ob)); keep.append((kind, c, ob))
+            for pre, read_before in ([(0, False), (2, True), (2, False)] if tier == 'quick' or kind != 'thread' else [(p, r) for p in range(4) for r in (False, True)]):
+                ob = self_death_probe(kind, host, pre, read_before)
+                res.count('self-death:' + kind)
+                res.case((kind, 'self-death', pre, read_before), nontrivial=True, sample=dict(kind=kind, scenario='enqueue after the worker died on its own', good_inputs_before=pre, read_before=read_before, observed=ob))
+                why = oracle_self_death(pre, ob)
+                if why:
+                    res.violation(dict(kind=kind, scenario='enqueue as the first thing done with a worker that died on its own', good_inputs_before=pre, results_read_before_the_fatal_input=read_before), why, observed=ob)
             e1, e2 = ([1], []), ([2, 3], [])
             systematic = [[('close',), ('enq', e1)], [('enq', e1), ('close',), ('enq', e2), ('next',), ('next',)],
                           [('wait',), ('enq', e1)], [('enq', e1), ('enq', e2), ('next',), ('wait',), ('next',), ('next',)],
